@@ -9,7 +9,7 @@ package file
 //@ import descriptor "oras.land/oras-go/v2/internal/descriptor"
 //@ import graph "oras.land/oras-go/v2/internal/graph"
 //@
-//@ pure fileStoreRI(s *Store) bool = s != nil && s.graph != nil && alive(s.graph) && graphRI(s.graph)
+//@ pure fileStoreRI(s *Store) bool = s != nil && s.fallbackStorage != nil && s.graph != nil && alive(s.graph) && graphRI(s.graph)
 //@
 //@ func (*Store).status
 //@   trusted
